@@ -760,3 +760,244 @@ Proof.
   { apply IH; [apply S|lia|exact Hhi|exact Hrest]. }
   destruct I as [I1 I2]. split; [constructor; [exact S|exact I1]|exact I2].
 Qed.
+
+(* ------------------------------------------------------------------ one send, spelled out *)
+
+Lemma lookup_app_new k rows m : has_key k rows = false -> lookup k (rows ++ [(k, m)]) = Some m.
+Proof.
+  unfold has_key. induction rows as [|[n x] rows IH]; cbn; intros H.
+  - now rewrite Z.eqb_refl.
+  - destruct (n =? k) eqn:E; cbn in H; [discriminate|]. apply IH. exact H.
+Qed.
+
+(* a new message: refused with nothing changed, or accepted: written once with MsgSeqNum = next_num_out, that
+   number consumed, the frame readable from the journal under it, the stored counter = that number *)
+Lemma send_msg_new_cases c m w :
+  raw_seq m = false -> Out_inv w -> in_i64 (nout w) = true ->
+  send_msg c m w = mkR (inr XConn) w []
+  \/ exists w' pre,
+       let wm := mkMsg (mtype m) (wire_tags c (nout w) m) in
+       send_msg c m w = mkR (inl tt) w' (pre ++ [Wire wm]) /\ wires pre = []
+       /\ get T34 (mtags wm) = Some (z_to_dec (nout w))
+       /\ nout w' = nout w + 1 /\ j_sout (jr w') = nout w
+       /\ lookup (nout w) (j_out (jr w')) = Some wm
+       /\ j_out (jr w') = j_out (jr w) ++ [(nout w, wm)] /\ Out_inv w'.
+Proof.
+  intros Hr Hi Hrange.
+  assert (Hstep : OutStep w (send_msg c m w)).
+  { apply send_msg_new_outok; auto. split.
+    - unfold in_i64 in Hrange. lia.
+    - pose proof (send_msg_pres nout c m) as _.
+      (* next_num_out grows by at most one *)
+      assert (nout (rw (send_msg c m w)) <= nout w + 1); [|unfold in_i64 in Hrange; lia].
+      unfold send_msg. rewrite bind_unfold. cbn [getw rv rw re]. rewrite bind_unfold.
+      assert (Hg : pres nout (send_gate m w)) by (apply send_gate_pres; ins_solve).
+      destruct (rv (send_gate m w w)); cbn [rv rw re]; [|rewrite Hg; lia].
+      unfold send_tail. rewrite bind_unfold.
+      destruct (mkind m), (treq w); msimp; rewrite ?(send_write_new_nout c m _ Hr), ?Hg; lia. }
+  destruct Hi as [I1 [I2 I3]].
+  unfold send_msg in *. rewrite bind_unfold in *. cbn [getw rv rw re app] in *. rewrite bind_unfold in *.
+  destruct (send_gate_cases2 m w) as [H|[[Hst H]|[H6 [Hk H]]]]; rewrite H in *; cbn [rv rw re app] in *.
+  - left. reflexivity.
+  - unfold send_tail in *. rewrite bind_unfold in *.
+    set (G := match mkind m, treq w with KTestReq, None => raise XConn | _, _ => ret tt end w) in *.
+    assert (HG : G = mkR (inr XConn) w [] \/ G = mkR (inl tt) w []).
+    { subst G. destruct (mkind m), (treq w); auto. }
+    destruct HG as [HG|HG]; rewrite HG in *; cbn [rv rw re app] in *; [left; reflexivity|].
+    assert (Hw : wr w = true) by (apply I3; unfold alive; stlia).
+    pose proof (has_key_below _ _ I2) as Hk.
+    rewrite (send_write_new c m w Hr Hw Hrange Hk) in *. cbn [rv rw re] in *.
+    right. exists (sent_world c m w), []. cbn zeta.
+    split; [reflexivity|]. split; [reflexivity|]. split; [reflexivity|].
+    split; [reflexivity|]. split; [reflexivity|]. split; [cbn; apply lookup_app_new; exact Hk|].
+    split; [reflexivity|]. apply Hstep.
+  - set (w6 := set_role ROLE_INITIATOR (set_st ST_LOGON_SENT w)) in *.
+    unfold send_tail in *. rewrite bind_unfold in *.
+    assert (HG : match mkind m, treq w with KTestReq, None => raise XConn | _, _ => ret tt end w6 = mkR (inl tt) w6 []).
+    { destruct Hk as [Hk|Hk]; rewrite Hk; reflexivity. }
+    rewrite HG in *. cbn [rv rw re app] in *.
+    assert (Hw : wr w = true) by (apply I3; unfold alive; stlia).
+    pose proof (has_key_below _ _ I2) as Hkey.
+    rewrite (send_write_new c m w6 Hr Hw Hrange Hkey) in *. cbn [rv rw re] in *.
+    right. exists (sent_world c m w6), [State ST_LOGON_SENT]. cbn zeta.
+    split; [reflexivity|]. split; [reflexivity|]. split; [reflexivity|].
+    split; [reflexivity|]. split; [reflexivity|]. split; [cbn; apply lookup_app_new; exact Hkey|].
+    split; [reflexivity|]. apply Hstep.
+Qed.
+
+(* ------------------------------------------------------------------ witnesses *)
+
+Definition cfgS : cfg := cfg0.
+Definition o_app (id : String.string) := OSend (mkMsg (S "D") [(S "11", S id); (S "55", S "SYM")]).
+Arguments o_app id%string.
+
+(* D12: Logon exchange, two application sends (2, 3); the peer asks twice for 2..: the second request finds
+   the journaled PossDup copies, aborts (DuplicatedTagError swallowed) and leaves next_num_out rewound to 2;
+   the next new message reuses number 2 *)
+Definition h_resend_twice :=
+  [i_logon 1; o_app "A"; o_app "B"; i_resend 2 2 0; i_resend 3 2 0; o_app "C"].
+
+Definition new_numbers (l : list event) : list str :=
+  flat_map (fun wm => if raw_seq wm then [] else match get T34 (mtags wm) with Some v => [v] | None => [] end) (wires l).
+
+Lemma resend_abort_refuted :
+  exists c w h,
+    Out_inv w /\ in_i64 (nout (final c w h)) = true
+    /\ (exists s, In s (run c w h) /\ nout (s_after s) < nout (s_before s))
+    /\ new_numbers (trace (run c w h)) = [S "1"; S "2"; S "3"; S "2"].
+Proof.
+  exists cfgS, w_acceptor, h_resend_twice.
+  split; [repeat split; try constructor; intros; reflexivity|]. split; [vm_compute; reflexivity|].
+  split; [|vm_compute; reflexivity].
+  eexists (nth 4 (run cfgS w_acceptor h_resend_twice) (mkS w_acceptor (i_logon 1) (step cfgS (i_logon 1) w_acceptor))).
+  split; [do 4 right; left; reflexivity|]. vm_compute. reflexivity.
+Qed.
+
+(* D20: the application sends a SequenceReset numbered next_num_out: it goes out and is journaled under that
+   number without consuming it; the next new message carries the same number and its journal write fails *)
+Definition o_seqreset (seq new : Z) :=
+  OSend (mkMsg (S "4") [(T123, S "Y"); (T34, z_to_dec seq); (T36, z_to_dec new)]).
+Definition h_app_seqreset := [i_logon 1; o_seqreset 2 5; o_app "A"].
+
+Lemma app_seqreset_refuted :
+  exists c w h,
+    Out_inv w
+    /\ map (fun wm => get T34 (mtags wm)) (wires (trace (run c w h))) = [Some (S "1"); Some (S "2"); Some (S "2")]
+    /\ (exists s, In s (run c w h) /\ rv (s_res s) = inr XDupSeq /\ wires (s_events s) <> [])
+    /\ (exists s, In s (run c w h) /\ Out_inv (s_before s) /\ ~ Out_inv (s_after s)).
+Proof.
+  exists cfgS, w_acceptor, h_app_seqreset.
+  split; [repeat split; try constructor; intros; reflexivity|]. split; [vm_compute; reflexivity|].
+  split.
+  - eexists (nth 2 (run cfgS w_acceptor h_app_seqreset) (mkS w_acceptor (i_logon 1) (step cfgS (i_logon 1) w_acceptor))).
+    split; [do 2 right; left; reflexivity|]. split; [vm_compute; reflexivity|]. vm_compute. discriminate.
+  - eexists (nth 1 (run cfgS w_acceptor h_app_seqreset) (mkS w_acceptor (i_logon 1) (step cfgS (i_logon 1) w_acceptor))).
+    split; [right; left; reflexivity|]. split.
+    + split; [vm_compute; reflexivity|]. split; [vm_compute; repeat constructor|]. intros _. vm_compute. reflexivity.
+    + intros [H _]. vm_compute in H. discriminate.
+Qed.
+
+(* non-vacuity: a session with sends, a gap, a heartbeat exchange and a logout stays inside the invariant *)
+Definition h_c05_good :=
+  [i_logon 1; o_app "A"; i_app 2; OTestReq 7; OIn (inbound (S "0") 3 [(T112, S "7")]) 0; i_app 5;
+   OIn (inbound (S "1") 4 [(T112, S "X")]) 0; o_app "B"; OIn (inbound (S "5") 5 []) 0; o_app "C"].
+
+Lemma c05_good_in_scope :
+  Out_inv w_acceptor /\ I64MIN <= nout w_acceptor /\ nout (final cfgS w_acceptor h_c05_good) <= I64MAX + 1
+  /\ Forall (fun s => ~ D12_step s /\ ~ D20_step s) (run cfgS w_acceptor h_c05_good)
+  /\ new_numbers (trace (run cfgS w_acceptor h_c05_good)) = [S "1"; S "2"; S "3"; S "4"; S "5"; S "6"]
+  /\ j_sout (jr (final cfgS w_acceptor h_c05_good)) = 6.
+Proof.
+  split; [repeat split; try constructor; intros; reflexivity|].
+  split; [vm_compute; discriminate|]. split; [vm_compute; discriminate|].
+  split; [apply c05_classes_forallb; vm_compute; reflexivity|]. split; vm_compute; reflexivity.
+Qed.
+
+(* ------------------------------------------------------------------ C04: a detected gap IS requested *)
+
+Lemma send_gate_open m w : gate_refuses m w = false -> rv (send_gate m w w) = inl tt.
+Proof.
+  unfold gate_refuses, send_gate. intros H.
+  destruct (st w <? ST_NCE); [discriminate|]. cbn [orb] in H.
+  destruct (st w =? ST_NCE).
+  - destruct (mkind m); cbn in H; try discriminate; reflexivity.
+  - cbn [andb orb] in H. rewrite H. reflexivity.
+Qed.
+
+Lemma send_msg_not_refused c m w :
+  gate_refuses m w = false -> mkind m <> KTestReq -> rv (send_msg c m w) <> inr XConn.
+Proof.
+  intros Hg Hk Hx. pose proof (send_msg_conn_free c m w Hx) as Hf.
+  unfold send_msg in Hx. rewrite bind_unfold in Hx. cbn [getw rv rw re app] in Hx. rewrite bind_unfold in Hx.
+  rewrite (send_gate_open m w Hg) in Hx. cbn [rv rw re] in Hx.
+  destruct (send_tail_conn c m w _ Hx) as [Hk' _]. congruence.
+Qed.
+
+Definition rr_msg (w : world) : msg := mkMsg MT_RESENDREQUEST [(T7, z_to_dec (nin w)); (T16, S_0)].
+
+(* with the outbound invariant (no D12 / D20 damage) and an open send gate, _check_seqnum_gaps on a gap
+   writes exactly one ResendRequest and the state becomes RESENDREQ_AWAITING *)
+Lemma check_gaps_requests c n w :
+  Out_inv w -> in_i64 (nout w) = true -> gate_refuses (rr_msg w) w = false ->
+  nin w < n -> st w <> ST_AWAITING ->
+  exists w' pre rr,
+    check_gaps c n w = mkR (inl false) w' (pre ++ [Wire rr; State ST_AWAITING]) /\ wires pre = []
+    /\ is_resend rr = true /\ get T7 (mtags rr) = Some (z_to_dec (nin w)) /\ get T16 (mtags rr) = Some S_0
+    /\ st w' = ST_AWAITING /\ nin w' = nin w /\ maxres w' = n.
+Proof.
+  intros Hi Hr Hg Hn Hs.
+  unfold check_gaps. rewrite bind_unfold. cbn [getw rv rw re app].
+  destruct (nin w <? n) eqn:E; [|lia]. destruct (st w =? ST_AWAITING) eqn:Es; [lia|]. cbn [negb].
+  rewrite !bind_unfold. cbn [modw rv rw re app].
+  set (w1 := set_maxres n w).
+  assert (Hi1 : Out_inv w1) by exact Hi.
+  fold (rr_msg w).
+  destruct (send_msg_new_cases c (rr_msg w) w1 eq_refl Hi1 Hr) as [Hx|[w' [pre [H1 [H2 [H3 [H4 [H5 [H6 [H7 H8]]]]]]]]]].
+  - exfalso. apply (send_msg_not_refused c (rr_msg w) w1); [exact Hg|discriminate|]. rewrite Hx. reflexivity.
+  - rewrite H1. cbn [rv rw re app state_set bind modw emit ret]. cbn.
+    exists (set_st ST_AWAITING w'), pre, (mkMsg (mtype (rr_msg w)) (wire_tags c (nout w1) (rr_msg w))).
+    split; [rewrite <- ?app_assoc; reflexivity|]. split; [exact H2|]. split; [reflexivity|].
+    split; [reflexivity|]. split; [reflexivity|]. split; [reflexivity|].
+    assert (Hp : pres nin (send_msg c (rr_msg w))) by (apply send_msg_pres; ins_solve).
+    assert (Hq : pres maxres (send_msg c (rr_msg w))) by (apply send_msg_pres; ins_solve).
+    specialize (Hp w1). specialize (Hq w1). rewrite H1 in Hp, Hq. cbn [rw] in Hp, Hq.
+    split; [exact Hp|exact Hq].
+Qed.
+
+Definition plain_kind (m : msg) : Prop :=
+  mkind m = KApp \/ mkind m = KTestReq \/ mkind m = KHeartbeat \/ mkind m = KResend.
+
+(* C04 (exactly one): a message of a kind without pre-handler, numbered above the expected number, received on a
+   logged-on connection that is not already awaiting a resend, makes the receiver write exactly one ResendRequest
+   from the expected number and wait - provided the outbound side is intact (Out_inv: no D12 / D20 damage) *)
+Lemma gap_is_requested c m now w n :
+  Out_inv w -> in_i64 (nout w) = true -> validate_integrity c m w = VOk -> get_int T34 m = inl n ->
+  nin w < n -> st w <> ST_AWAITING -> ST_NCE < st w -> gate_refuses (rr_msg w) w = false -> plain_kind m ->
+  exists rr, resends (re (process_message c m now w)) = [rr]
+             /\ get T7 (mtags rr) = Some (z_to_dec (nin w)) /\ get T16 (mtags rr) = Some S_0
+             /\ apps (re (process_message c m now w)) = []
+             /\ nin (rw (process_message c m now w)) = nin w
+             /\ (st (rw (process_message c m now w)) = ST_AWAITING \/ dead (rw (process_message c m now w))).
+Proof.
+  intros Hi Hr V Hn Hlt Hs Hst Hg Hk.
+  destruct (check_gaps_requests c n w Hi Hr Hg Hlt Hs) as [w' [pre [rr [Hc [Hp [Hrr [H7 [H16 [Hs' [Hn' Hm']]]]]]]]]].
+  assert (Hpart : part1 c m w = mkR (inl (Some false)) w' (pre ++ [Wire rr; State ST_AWAITING])).
+  { unfold part1. rewrite bind_unfold. cbn [getw rv rw re app].
+    destruct (st w <? ST_NCE) eqn:E1; [lia|]. destruct (st w =? ST_NCE) eqn:E2; [lia|]. cbn [andb].
+    rewrite bind_unfold. unfold pre_handlers. rewrite E2. rewrite bind_unfold. cbn [ret rv rw re app].
+    assert (Hpre : (match mkind m with
+                    | KLogon => process_logon c m | KSeqReset => process_seqreset c m
+                    | KLogout => process_logout c m | _ => ret tt end) w = mkR (inl tt) w []).
+    { destruct Hk as [Hk|[Hk|[Hk|Hk]]]; rewrite Hk; reflexivity. }
+    rewrite Hpre. cbn [rv rw re app].
+    unfold gap_check. rewrite bind_unfold. cbn [getw rv rw re app].
+    destruct (st w <=? ST_DISC_BROKEN) eqn:E3; [stlia|].
+    rewrite bind_unfold. rewrite Hn. cbn [lift ret rv rw re app]. rewrite bind_unfold. rewrite Hc.
+    cbn [ret rv rw re app]. rewrite app_nil_r. reflexivity. }
+  assert (Hpm : exists e2 w2,
+            re (process_message c m now w) = (pre ++ [Wire rr; State ST_AWAITING]) ++ e2
+            /\ rw (process_message c m now w) = w2 /\ resends e2 = [] /\ apps e2 = []
+            /\ nin w2 = nin w' /\ aw_or_dead w2).
+  { unfold process_message. rewrite V. rewrite bind_unfold. unfold try_. rewrite Hpart.
+    cbn [rv rw re after_part1]. rewrite bind_unfold. unfold try_.
+    pose proof (resends_nil _ (dispatch_not_resend c m false w')) as Dr.
+    pose proof (dispatch_apps c m false w') as Da.
+    pose proof (dispatch_nin c m false w') as Dn.
+    pose proof (dispatch_aw c m false w' Hs') as Dw.
+    destruct (dispatch c m false w') as [r2 w2 e2]. cbn [rv rw re] in *.
+    exists e2, w2. destruct r2; cbn [ret rv rw re]; rewrite ?app_nil_r; repeat split; auto. }
+  destruct Hpm as [e2 [w2 [E1 [E2 [Dr [Da [Dn Dw]]]]]]]. rewrite E1, E2.
+  assert (Hres : resends (pre ++ [Wire rr; State ST_AWAITING]) = [rr]).
+  { rewrite resends_app. unfold resends at 1. rewrite Hp. cbn [filter app]. unfold resends. cbn. rewrite Hrr. reflexivity. }
+  assert (Happ : apps (pre ++ [Wire rr; State ST_AWAITING]) = []).
+  { rewrite apps_app. cbn.
+    assert (apps pre = []); [|rewrite H; reflexivity].
+    pose proof (check_gaps_not_app c n w) as Hna. rewrite Hc in Hna. cbn [re] in Hna.
+    apply apps_nil in Hna. rewrite apps_app in Hna. apply app_eq_nil in Hna. apply Hna. }
+  exists rr.
+  split; [rewrite resends_app, Hres, Dr; reflexivity|].
+  split; [exact H7|]. split; [exact H16|].
+  split; [rewrite apps_app, Happ, Da; reflexivity|].
+  split; [rewrite Dn; exact Hn'|].
+  destruct Dw as [Dw|Dw]; auto.
+Qed.
